@@ -493,3 +493,139 @@ def arrow_key(rec):
 def j_or_empty(x):
     """`x or {}` for a Json value"""
     return ite(jv_truthy(x), x, jv(dict()))
+
+
+# ---------------------------------------------------------------- C13: planner / dialogue / sanitiser
+
+@spec
+def ws_tokens(s):
+    """number of whitespace separated tokens of a string (len(s.split()))"""
+    return len(s.split())
+
+
+@spec
+def dget(d, k, dflt):
+    """d.get(k, dflt) for a Dyn value d that is a dict (dflt otherwise)"""
+    return ite(is_dict(d) and k in as_dict(d), as_dict(d)[k], dyn(dflt))
+
+
+@spec
+def b_base_ops(b):
+    """per-turn op cap of a T3 bundle: int(bundle['agent']['caps']['ops']), default 3"""
+    return dyn_int(dget(dget(dget(b, 'agent', {}), 'caps', {}), 'ops', 3))
+
+
+@spec
+def b_slice_cap(b):
+    """per-slice op cap: int(bundle['slice_caps']['t3_ops']) when that is readable, else the per-turn cap"""
+    return ite(is_dict(dget(b, 'slice_caps', {})) and dyn_int_ok(dget(dget(b, 'slice_caps', {}), 't3_ops', b_base_ops(b))),
+               dyn_int(dget(dget(b, 'slice_caps', {}), 't3_ops', b_base_ops(b))), b_base_ops(b))
+
+
+@spec
+def b_caps_ops(b):
+    return min(b_base_ops(b), b_slice_cap(b))
+
+
+@spec
+def b_sim_stats(b):
+    return ite(dyn_truthy(dget(dget(dget(b, 't2', {}), 'metrics', {}), 'sim_stats', {})),
+               dget(dget(dget(b, 't2', {}), 'metrics', {}), 'sim_stats', {}), dyn({}))
+
+
+@spec
+def b_s_max(b):
+    """best retrieval similarity recorded in the bundle (default 0.0)"""
+    return dyn_float(dget(b_sim_stats(b), 'max', 0.0))
+
+
+@spec
+def b_t3cfg(b):
+    return ite(is_dict(dget(b, 'cfg', {})), dget(dget(b, 'cfg', {}), 't3', {}), dyn({}))
+
+
+@spec
+def b_policy(b):
+    return ite(is_dict(b_t3cfg(b)), dget(b_t3cfg(b), 'policy', {}), dyn({}))
+
+
+@spec
+def b_tau_high(b):
+    return dyn_float(dget(b_policy(b), 'tau_high', 0.8))
+
+
+@spec
+def b_tau_low(b):
+    return dyn_float(dget(b_policy(b), 'tau_low', 0.4))
+
+
+@spec
+def b_eps_edit(b):
+    return dyn_float(dget(b_policy(b), 'epsilon_edit', 0.10))
+
+
+@spec
+def intent_for(s_max, tau_high, tau_low, has_labels):
+    """the documented similarity-threshold policy of the rule based planner"""
+    return ite(s_max >= tau_high, 'summary', ite(s_max >= tau_low, ite(has_labels, 'assertion', 'ack'), 'question'))
+
+
+@spec
+def b_t3(b):
+    return dget(dget(b, 'cfg', {}), 't3', {})
+
+
+@spec
+def b_t2cfg(b):
+    return dget(dget(b, 'cfg', {}), 't2', {})
+
+
+@spec
+def b_labels(b):
+    return dget(dget(b, 'text', {}), 'labels_from_t1', [])
+
+
+@spec
+def b_nodes(b):
+    return dget(dget(b, 't1', {}), 'touched_nodes', [])
+
+
+@spec
+def wf_plan_bundle(b):
+    """shape of the T3 plan bundle as clematis/engine/stages/t3/bundle.py:assemble_bundle builds it (only the parts the
+    planner / RAG refinement read; every key is optional, a present key has the documented type)"""
+    return (is_dict(b)
+            and is_dict(dget(b, 'cfg', {})) and is_dict(b_t3(b)) and is_dict(b_t2cfg(b))
+            and is_int(dget(b_t3(b), 'tokens', 256))
+            and is_dict(dget(b_t3(b), 'policy', {}))
+            and is_number(dget(dget(b_t3(b), 'policy', {}), 'tau_high', 0.8))
+            and is_number(dget(dget(b_t3(b), 'policy', {}), 'tau_low', 0.4))
+            and is_number(dget(dget(b_t3(b), 'policy', {}), 'epsilon_edit', 0.10))
+            and is_str(dget(b_t2cfg(b), 'owner_scope', 'any'))
+            and is_int(dget(b_t2cfg(b), 'k_retrieval', 64))
+            and is_number(dget(b_t2cfg(b), 'sim_threshold', 0.3))
+            and is_dict(dget(b, 'agent', {})) and is_dict(dget(dget(b, 'agent', {}), 'caps', {}))
+            and is_int(dget(dget(dget(b, 'agent', {}), 'caps', {}), 'ops', 3))
+            and is_dict(dget(b, 'slice_caps', {})) and is_int(dget(dget(b, 'slice_caps', {}), 't3_ops', 0))
+            and is_dict(dget(b, 't2', {})) and is_dict(dget(dget(b, 't2', {}), 'metrics', {}))
+            and is_dict(dget(dget(dget(b, 't2', {}), 'metrics', {}), 'sim_stats', {}))
+            and is_number(dget(dget(dget(dget(b, 't2', {}), 'metrics', {}), 'sim_stats', {}), 'max', 0.0))
+            and is_dict(dget(b, 'text', {})) and is_list(b_labels(b))
+            and forall(i, 0 <= i < len(as_list(b_labels(b))), is_str(as_list(b_labels(b))[i]))
+            and is_dict(dget(b, 't1', {})) and is_list(b_nodes(b))
+            and forall(i, 0 <= i < len(as_list(b_nodes(b))), is_dict(as_list(b_nodes(b))[i])
+                       and is_number(dget(as_list(b_nodes(b))[i], 'delta', 0.0))))
+
+
+@spec
+def wf_dialog_bundle(d):
+    """shape of the dialogue bundle as clematis/engine/stages/t3/legacy.py:make_dialog_bundle builds it (only what
+    speak() reads; keys optional; template / style prefix / identity / labels / snippet fields are arbitrary)"""
+    return (is_dict(d)
+            and is_dict(dget(d, 'text', {})) and is_list(dget(dget(d, 'text', {}), 'labels_from_t1', []))
+            and is_dict(dget(d, 'agent', {})) and is_dict(dget(dget(d, 'agent', {}), 'caps', {}))
+            and is_int(dget(dget(dget(d, 'agent', {}), 'caps', {}), 'tokens', 256))
+            and is_dict(dget(d, 'dialogue', {})) and is_int(dget(dget(d, 'dialogue', {}), 'include_top_k_snippets', 2))
+            and is_list(dget(d, 'retrieved', []))
+            and forall(i, 0 <= i < len(as_list(dget(d, 'retrieved', []))), is_dict(as_list(dget(d, 'retrieved', []))[i])
+                       and is_number(dget(as_list(dget(d, 'retrieved', []))[i], 'score', 0.0))))
